@@ -15,9 +15,17 @@ for p in sorted(glob.glob('/verif/seeded/*/meta.json')):
             what = l
             break
     own = m['property'] in m.get('caught_by', [])
-    rows.append('| %s | %s | %s | %s | %s | %s |' % (
-        m['name'], m['property'], what[:150].replace('|', '/'), m.get('suite', '').split(',')[0],
-        'yes' if own else 'NO', ', '.join(m.get('caught_by', [])) or 'none'))
-print('| seeded change | breaks | what it is | repo suite | caught by its own check | all quick checks reporting it |')
-print('|---|---|---|---|---|---|')
+    hp = os.path.join(os.path.dirname(p), 'holdout.json')
+    caught = list(m.get('caught_by', []))
+    hold = '-'
+    if os.path.exists(hp):
+        h = json.load(open(hp))
+        hold = 'caught' if h['own_check_caught'] else 'MISSED'
+        caught = sorted(set(caught) | set(h['caught_by']))
+    rows.append('| %s | %s | %s | %s | %s | %s | %s |' % (
+        m['name'], m['property'], what[:150].replace('|', '/'), m.get('suite', '').split(',')[0], hold,
+        'yes' if own else 'NO', ', '.join(caught) or 'none'))
+print('| seeded change | breaks | what it is | repo suite | holdout (before strengthening) | caught by its own check now '
+      '| quick checks seen reporting it |')
+print('|---|---|---|---|---|---|---|')
 print('\n'.join(rows))
